@@ -79,9 +79,6 @@ def lessTable (bwt : Array Nat) : Array Nat := Id.run do
 
 def lessFast (tab : Array Nat) (n : Nat) (a : Nat) : Nat := if a < tab.size then tab.getD a 0 else n
 
-def hitObs (h : SmemModel.Hit FMDModel.Bi) : SmemObs :=
-  ⟨h.pos, h.len, h.iv.lower, h.iv.lower + h.iv.size, h.iv.lowerRev, h.iv.lowerRev + h.iv.size⟩
-
 /-- table of `SmemModel.cnt T p b e` for `b < e ≤ |p|` (entry `b·(|p|+1)+e`), built by refining the occurrence
 positions of `p[b..e)` symbol by symbol -/
 def cntTable (T p : Array Nat) : Array Nat := Id.run do
@@ -106,8 +103,8 @@ def sweepAgrees (T sa p : List Nat) (l : Nat) (perI : List (List SmemObs)) (all 
   let sops := SmemModel.strOps (fun b e => ct.getD (b * (p.length + 1) + e) 0)
   let pl (hs : List (SmemModel.Hit (Nat × Nat))) : List (Nat × Nat) := hs.map (fun h => (h.pos, h.len))
   let okI := (List.range p.length).zip perI |>.all (fun (i, r) =>
-    (SmemModel.smems ops p i l).map hitObs == r && pl (SmemModel.smems sops p i l) == keys r)
-  okI && (SmemModel.allSmems ops p l).map hitObs == all && pl (SmemModel.allSmems sops p l) == keys all
+    (SmemModel.smems ops p i l).map SmemModel.hitObs == r && pl (SmemModel.smems sops p i l) == keys r)
+  okI && (SmemModel.allSmems ops p l).map SmemModel.hitObs == all && pl (SmemModel.allSmems sops p l) == keys all
 
 def smemsVerdict (seqs : List (List Nat)) (k l : Nat) (p : List Nat) (out : String) : String :=
   let T := fmdText seqs
